@@ -295,6 +295,11 @@ def run(tier):
     import c07
     c07.rerooting_rule(fx, ck, "G5.rerooting-symmetric")
     guard_coherence(fx, ck)
+    thrown_rooted(fx, ck)
+    cn3 = Check("C02", tier, "", [])
+    thrown_rooted(ctl, cn3, prefix="c02::")
+    if not any(fd[0] == "G6.thrown-rooted" for fd in cn3.findings):
+        ck.closed_fail.append("G6 control failed: the fixture rethrow of a guard-less completion was not reported")
     cn2 = Check("C02", tier, "", [])
     guard_coherence(ctl, cn2, prefix="c02::")
     if not any(fd[0] == "G5b.guard-coherence" for fd in cn2.findings):
@@ -368,3 +373,186 @@ def guard_coherence(fx, ck, name="G5b.guard-coherence", prefix=""):
                                "`%s` builds a `%s` that keeps the guard `%s`, but roots its field `%s` through the other guard `%s`: the value loses its "
                                "root as soon as that guard is released or cleared, while the structure still refers to it"
                                % (p, s[2][1].get("p", "?").split("::")[-1], ",".join(mine), fld, ",".join(other)))
+
+
+
+def thrown_rooted(fx, ck, name="G6.thrown-rooted", prefix=""):
+    """G6: a thrown value carries its own root.
+
+    An error unwinds through frames whose guards are released on the way, and handlers may allocate before the value reaches a register again,
+    so the code base gives every `JsError::ThrownValue` a `Guarded` that owns a guard (`Guarded::from_value`).  The rule follows the `guarded`
+    operand of every ThrownValue construction back to its producers - through moves, `Option` payloads, `take()` of a storage slot and from there
+    to every writer of that slot (`PendingCompletion::Throw(..)`, `exception_value = Some(..)`) - and reports a producer that builds
+    `Guarded { value, guard: None }` for a value that may be an object."""
+    from c09 import ancestors
+    ck.rule(name, "the Guarded of every JsError::ThrownValue is produced with a guard (directly or through every writer of the slot it is taken from)", floor=3)
+
+    def is_none_op(f, op):
+        if op[0] not in ("c", "m"):
+            return False
+        d = M.trace_back(f, op[1][0])
+        return bool(d and d[1] != "T" and d[2][0] == "agg" and d[2][1].get("p", "").endswith("option::Option") and d[2][1].get("v") == "None")
+
+    def non_object_blocks(f):
+        out = set()
+        for sw in M.enum_switches(fx, f):
+            if not sw[1].endswith("JsValue"):
+                continue
+            for var, tgt in sw[3].items():
+                if var != "Object":
+                    out |= M.dominated_region(f, tgt)
+            if "Object" in sw[3] and sw[4] is not None and sw[4] != sw[3]["Object"]:
+                out |= M.dominated_region(f, sw[4])
+        return out
+
+    unrooted = {}     # fn path -> [(block, stmt)] Guarded aggregates without a guard for a possibly-object value
+    for p, f in fx.fns.items():
+        if prefix and not p.startswith(prefix):
+            continue
+        nob = None
+        for bi, bl in enumerate(f.blocks):
+            for s in bl["s"]:
+                if s[0] == "a" and s[2][0] == "agg" and s[2][1].get("k") == "adt" and s[2][1].get("p", "").endswith("value::Guarded"):
+                    fields = s[2][1].get("fields") or []
+                    if "guard" in fields and is_none_op(f, s[2][2][fields.index("guard")]):
+                        if nob is None:
+                            nob = non_object_blocks(f)
+                        if bi in nob:
+                            continue
+                        # the value operand is a constant / primitive constructor?
+                        vop = s[2][2][fields.index("value")]
+                        if vop[0] == "k":
+                            continue
+                        dv = M.trace_back(f, vop[1][0])
+                        if dv and dv[1] != "T" and dv[2][0] == "agg" and dv[2][1].get("p", "").endswith("JsValue") and dv[2][1].get("v") != "Object":
+                            continue
+                        unrooted.setdefault(p, []).append((bi, s))
+    # producers: functions/closures whose return value may be such an aggregate
+    bad_prod = {}
+    for p, sites in unrooted.items():
+        f = fx.fns[p]
+        anc0 = ancestors(f, 0)
+        for bi, s in sites:
+            if s[1][0] == 0 or s[1][0] in anc0:
+                bad_prod[p] = F.short_span(s[3])
+    # a function that calls a bad closure of its own and returns / stores the result
+    def closure_calls(f):
+        """locals defined by calling one of f's own closures that is a bad producer"""
+        out = {}
+        for bi, t in f.calls():
+            u = t[1].get("u") or ""
+            if u.endswith(("Fn::call", "FnMut::call_mut", "FnOnce::call_once")) and t[2] and t[2][0][0] in ("c", "m"):
+                ty = fx.tys(f.locals[t[2][0][1][0]])
+                for cp in bad_prod:
+                    if fx.fns[cp].closure and fx.fns[cp].parent == (f.parent if f.closure else f.path) and cp.split("::")[-1] in ty.replace("{closure#", "{closure#"):
+                        out[t[3][0]] = cp
+                # type strings name closures by span, not index: match by parent only
+                for cp in bad_prod:
+                    if fx.fns[cp].closure and fx.fns[cp].parent == (f.parent if f.closure else f.path) and "closure" in ty:
+                        out.setdefault(t[3][0], cp)
+            d = t[1].get("d")
+            if d in bad_prod and not fx.fns[d].closure:
+                out[t[3][0]] = d
+        return out
+
+    def classify(f, op, depth=0, seen=None):
+        """set of tags for the origins of a Guarded operand"""
+        seen = seen if seen is not None else set()
+        if op[0] not in ("c", "m") or depth > 14:
+            return {"good"}
+        local, proj = op[1][0], op[1][1]
+        fl = [e for e in proj if isinstance(e, list) and e[0] == "f"]
+        for e in fl:
+            if e[3] and e[3].endswith("PendingCompletion") and e[4] == "Throw":
+                return {"store:PendingCompletion::Throw"}
+            if e[2] == "exception_value":
+                return {"store:exception_value"}
+            if e[3] and e[3].endswith("JsError") and e[2] == "guarded":
+                return {"payload"}
+            if e[2] == "pending_completion":
+                return {"store:PendingCompletion::Throw"}
+        if (local, len(proj)) in seen:
+            return set()
+        seen.add((local, len(proj)))
+        if 1 <= local <= f.argc and not f.defs().get(local):
+            return {"param"}
+        out = set()
+        cc = closure_calls(f)
+        for bi, si, rv in f.defs().get(local, []):
+            if si == "T":
+                if local in cc:
+                    out.add("bad:%s" % cc[local])
+                    continue
+                d = rv[1].get("d") or ""
+                u = rv[1].get("u") or ""
+                if d.endswith(("Option::<T>::take", "mem::take", "mem::replace", "Option::<T>::unwrap", "Option::<T>::expect", "Option::<T>::map",
+                               "Option::<T>::unwrap_or_else", "Option::<T>::ok_or_else", "Clone::clone")) and rv[2] and rv[2][0][0] in ("c", "m"):
+                    out |= classify(f, rv[2][0], depth + 1, seen)
+                else:
+                    out.add("good")
+            elif rv[0] == "use":
+                out |= classify(f, rv[1], depth + 1, seen)
+            elif rv[0] == "ref":
+                out |= classify(f, ["c", rv[2]], depth + 1, seen)
+            elif rv[0] == "agg":
+                if rv[1].get("p", "").endswith("value::Guarded"):
+                    bad = any(sx[1][0] == local and bx == bi for bx, sx in unrooted.get(f.path, []))
+                    out.add("bad:%s" % f.path if bad else "good")
+                elif rv[1].get("p", "").endswith("option::Option") and rv[2]:
+                    out |= classify(f, rv[2][0], depth + 1, seen)
+                else:
+                    out.add("good")
+            else:
+                out.add("good")
+        return out or {"good"}
+
+    # writers of the two storage slots
+    writers = {"store:PendingCompletion::Throw": [], "store:exception_value": []}
+    for p, f in fx.fns.items():
+        if prefix and not p.startswith(prefix):
+            continue
+        for bi, bl in enumerate(f.blocks):
+            for s in bl["s"]:
+                if s[0] != "a":
+                    continue
+                if s[2][0] == "agg" and s[2][1].get("p", "").endswith("PendingCompletion") and s[2][1].get("v") == "Throw" and s[2][2]:
+                    writers["store:PendingCompletion::Throw"].append((f, s[2][2][0], s[3]))
+                fl = F.place_fields(s[1])
+                if fl and fl[-1][2] == "exception_value" and s[2][0] == "use":
+                    writers["store:exception_value"].append((f, s[2][1], s[3]))
+    wcls = {}
+    for st, ws in writers.items():
+        bad = []
+        for f, op, sp in ws:
+            tags = classify(f, op)
+            for tg in tags:
+                if tg.startswith("bad:"):
+                    bad.append((f.path, tg[4:], F.short_span(sp)))
+        wcls[st] = bad
+    nsink = 0
+    for p, f in sorted(fx.fns.items()):
+        if prefix and not p.startswith(prefix):
+            continue
+        for bi, bl in enumerate(f.blocks):
+            for s in bl["s"]:
+                if not (s[0] == "a" and s[2][0] == "agg" and s[2][1].get("p", "").endswith("JsError") and s[2][1].get("v") == "ThrownValue" and s[2][2]):
+                    continue
+                nsink += 1
+                tags = classify(f, s[2][2][0])
+                bad = [tg[4:] for tg in tags if tg.startswith("bad:")]
+                via = None
+                for tg in tags:
+                    if tg.startswith("store:") and wcls.get(tg):
+                        via = (tg[6:], wcls[tg][0])
+                ok = not bad and via is None
+                ck.instance(name, "%s: ThrownValue <- %s" % (p, ",".join(sorted(t_.split(":")[0] + (":" + t_.split(":", 1)[1].split("::")[-1] if ":" in t_ else "")
+                                                                                  for t_ in tags))), F.short_span(s[3]), ok=ok)
+                if bad:
+                    ck.finding(name, "%s/%s" % (name, p), F.short_span(s[3]),
+                               "`%s` throws a value whose Guarded is built without a guard (by `%s`): while the error unwinds nothing roots the value" % (p, bad[0]))
+                elif via is not None:
+                    ck.finding(name, "%s/%s/via-%s" % (name, p, via[0]), F.short_span(s[3]),
+                               "`%s` rethrows the Guarded it takes out of `%s` as it is, and `%s` stores one there that `%s` built with `guard: None` (%s): "
+                               "the value is rooted only by the frame that is released while the error unwinds"
+                               % (p, via[0], via[1][0], via[1][1], via[1][2]))
+    ck.anchor(nsink >= 1, ("ctl:" if prefix else "") + "constructions of JsError::ThrownValue")
